@@ -1001,7 +1001,16 @@ def r25_printing(ctx):
             if isinstance(e, ast.BinOp) and isinstance(e.op, ast.Add) and isinstance(e.left, ast.Constant) and isinstance(e.left.value, str):
                 prefix, rest = e.left.value, e.right
             if isinstance(rest, ast.Call) and unparse(rest.func) == 'str' and len(rest.args) == 1 and prefix in (None, ''):
-                ctx.ok(R, ret, f, 'a negative value is printed with a minus sign in front of its magnitude', 'integer fast path: str(<stored integer>)', nontrivial=False)
+                arg_ = rest.args[0]
+                floors = [x_ for x_ in ast.walk(arg_) if isinstance(x_, ast.BinOp) and isinstance(x_.op, (ast.FloorDiv, ast.Mod))]
+                plain = isinstance(arg_, ast.Attribute) and arg_.attr == '_value'
+                if plain:
+                    ctx.ok(R, ret, f, 'a negative value is printed with a minus sign in front of its magnitude', 'integer fast path: str(<stored integer>)', nontrivial=False)
+                elif floors and not any(unparse(x_.left) in nonneg_of or (isinstance(x_.left, ast.Call) and unparse(x_.left.func) == 'abs') for x_ in floors):
+                    ctx.bad(R, ret, f, 'the integer/fraction split for printing is applied to a magnitude (sign handled separately)',
+                            '`%s` floors a value of unknown sign (and drops the fraction without rounding): -0.5 prints as -1' % unparse(rest))
+                else:
+                    ctx.unrecognised(R, ret or f.node, f, 'the way %s.__str__ builds its result' % cls.name, '`%s` is not str(<stored integer>)' % unparse(rest)[:80])
                 continue
             if isinstance(rest, ast.BinOp) and isinstance(rest.op, ast.Mod) and isinstance(rest.right, ast.Call) and isinstance(rest.right.func, ast.Name) \
                     and rest.right.func.id == 'divmod' and len(rest.right.args) == 2:
